@@ -48,6 +48,7 @@ func NewSimDB(inner mwdb.DB, s *Sched, inst *Instance) *SimDB {
 
 // fault decides whether the current call fails.
 func (d *SimDB) fault(kind string) bool {
+	d.S.Work()
 	d.mu.Lock()
 	defer d.mu.Unlock()
 	if !d.Counting {
